@@ -418,7 +418,12 @@ class Rewriter:
 
             else:
                 op = getattr(math, opname)
-            return like.context.constant(op(*args), like)
+            try:
+                return like.context.constant(op(*args), like)
+            except ValueError:
+                # args are outside the domain of math.<opname> (e.g. sqrt
+                # of a negative constant): leave the expression as it is
+                return
 
     def absolute(self, expr):
         (x,) = expr.operands
